@@ -483,6 +483,8 @@ pub struct Runner<'a> {
     pub opts: IlvOpts,
     cache: HashMap<u128, u32>,
     pub stats: IlvStats,
+    /// coroutines leaked because a call did not terminate: exploration of the scenario stops
+    pub leaked: u64,
 }
 
 impl<'a> Runner<'a> {
@@ -527,6 +529,7 @@ impl<'a> Runner<'a> {
             opts,
             cache: HashMap::new(),
             stats: IlvStats::default(),
+            leaked: 0,
         })
     }
 
@@ -564,6 +567,7 @@ impl<'a> Runner<'a> {
     /// Execute one schedule: follow `prefix` (strictly), then the default policy.
     /// `budget_at_prefix_end`: remaining preemptions after the prefix (for the cache).
     pub fn run(&mut self, prefix: &[u8], remaining_budget: u32) -> Trace {
+        crate::common::PROGRESS.fetch_add(1, std::sync::atomic::Ordering::Relaxed);
         let n = self.sc.threads.len();
         self.sut.bufs.restore(&self.base);
         EXEC.with(|e| {
@@ -719,6 +723,7 @@ impl<'a> Runner<'a> {
                 // the call may never finish: leak its coroutine instead of finishing it
                 if let Some(g) = self.gens[t].take() {
                     std::mem::forget(g);
+                    self.leaked += 1;
                 }
                 done[t] = true;
                 abandoned = true;
@@ -743,12 +748,21 @@ impl<'a> Runner<'a> {
         }
         self.stats.steps += step as u64;
         if abandoned {
-            // finish the remaining coroutines without scheduling and without monitors
+            // finish the remaining coroutines one after the other without monitors; a
+            // coroutine that does not finish within the step budget is leaked
             with_exec(|e| e.quiet = true);
-            hook::with_ctx(|c| c.mode = Mode::Off);
             for t in 0..n {
+                let mut budget = 50_000u64;
                 while !done[t] && self.gens[t].is_some() {
                     self.resume(t, &mut pending, &mut obs, &mut done);
+                    budget -= 1;
+                    if budget == 0 {
+                        if let Some(g) = self.gens[t].take() {
+                            std::mem::forget(g);
+                            self.leaked += 1;
+                        }
+                        done[t] = true;
+                    }
                 }
             }
         }
@@ -891,6 +905,12 @@ pub fn explore(sc: &Scenario, opts: &IlvOpts, col: &mut Collector) -> IlvStats {
     let mut conflict_execs = 0u64;
     while let Some((prefix, used)) = stack.pop() {
         if runner.stats.executions >= opts.max_execs || t0.elapsed().as_secs_f64() > opts.max_secs {
+            capped = true;
+            break;
+        }
+        if runner.leaked >= 3 {
+            // a call of this scenario does not terminate (reported); exploring further
+            // schedules would only leak more coroutine stacks
             capped = true;
             break;
         }
